@@ -340,4 +340,7 @@ class DateTimeOperator(object):
         """Parse recurrence string, return time point strings iterator."""
         recurrence = self.recurrence_parser.parse(recurrence_str)
         for time_point in recurrence:
-            yield self.strftime(time_point, print_format)
+            if print_format:
+                yield self.date_format(print_format, time_point)
+            else:
+                yield str(time_point)
